@@ -1,9 +1,31 @@
 import CwPlus.Lemmas.Ics20
+import CwPlus.Lemmas.Ics20Migrate
+import CwPlus.Lemmas.Ics20Env
+import CwPlus.Lemmas.Ics20TotalSent
 /-!
 # C11 — cw20-ics20: escrow always covers outstanding vouchers, channel by channel
 
 Histories as in C12 (`runG` with ghosts, `run` without): transfers, incoming packets with arbitrary
 fields, acknowledgements / timeouts, governance, migrations; every payout / refund sub-call may fail.
+
+## Environment assumptions (`structure EnvAssumptions`, Lemmas/Ics20Env.lean)
+
+* **E1 `hook_only_from_send`** — a real cw20 token contract calls `ExecuteMsg::Receive` only from its own
+  `Send`, after crediting the contract; a direct `Receive` never has a real token as sender.
+* **E2 `never_calls_itself`** — the ics20 contract is never the sender of a transfer (it emits no
+  message to itself).
+* **E3 `native_not_cw20`** — no native denomination has the form `cw20:…` (so the string storage key
+  of a native coin never collides with that of a cw20 token; the model keys the books structurally).
+
+The model's `World.exec` refuses transactions violating E1 / E2 (tags `impossible.token`,
+`impossible.self`), so theorems over `run` / `runG` speak about such histories only as no-ops.  The
+`…_explicit_env` theorems below restate the headline results over the *unguarded* semantics `runRaw` /
+`runGRaw` (same handlers and runtime, no such checks) with `EnvAssumptions` as an explicit hypothesis;
+`solvency_needs_hook_only_from_send` and `solvency_needs_never_calls_itself` show that solvency really
+fails without E1 resp. E2.  E3 is used by C12 `storage_keys_faithful`; solvency is stated per
+structural denomination (a bank denomination or a cw20 contract), which is what the holdings are.
+Further standing assumptions of the model (IBC core delivers at most one acknowledgement / timeout per
+sent packet — `admissible`; runtime dispatch semantics) are listed in `props/C11.json`.
 -/
 namespace CwPlus.Props.C11
 open CwPlus CwPlus.Ics20
@@ -25,6 +47,18 @@ theorem paidOut_le_escrowed (w : World) (ops : List (Block × Op)) (c : String) 
     (runG (w, Ghost.init w) ops).2.paidOut (c, d) ≤ (runG (w, Ghost.init w) ops).2.sent (c, d) := by
   have := channel_ledger w ops c d
   omega
+
+/-- **C11, channel_ledger / paidOut ≤ escrowed with packets in flight at the start**: the same for a start
+state that already has packets in flight (`fl`: sent by an earlier history, e.g. under the old code before
+a migration; `admissible` lets one acknowledgement or timeout through for each): what a migration books
+as outstanding counts as escrowed, and refunds of those packets are covered too. -/
+theorem channel_ledger_inflight (w : World) (fl : List (String × Packet)) (ops : List (Block × Op)) (c : String) (d : Denom) :
+    outstanding (runG (w, Ghost.initWith w fl) ops).1.st c d + (runG (w, Ghost.initWith w fl) ops).2.paidOut (c, d)
+      + (runG (w, Ghost.initWith w fl) ops).2.swallowed (c, d) = (runG (w, Ghost.initWith w fl) ops).2.sent (c, d) ∧
+    (runG (w, Ghost.initWith w fl) ops).2.paidOut (c, d) ≤ (runG (w, Ghost.initWith w fl) ops).2.sent (c, d) := by
+  have h := runG_ledger ops (ledgerInv_initWith w fl)
+  have h1 := h.1 (c, d); have h2 := h.2 (c, d)
+  rw [outstanding_eq]; omega
 
 /-! ## Solvency -/
 
@@ -221,26 +255,25 @@ theorem reduce_payout_solvent {w w' : World} {s1 : State} {c : String} {d : Deno
     simp only at hsum ⊢
     split at hsum <;> omega
 
-theorem exec_solvent {w w' : World} {blk : Block} {op : Op} {o : Outcome}
-    (hs : Solvent w) (hv : PostV3 w) (h : w.exec blk op = .ok (w', o)) : Solvent w' ∧ PostV3 w' := by
+/-- Every transaction other than `migrate` keeps the contract solvent (and leaves the stored version alone). -/
+theorem exec_solvent_nomig {w w' : World} {blk : Block} {op : Op} {o : Outcome}
+    (hs : Solvent w) (hnm : ∀ g, op ≠ .migrate g) (h : w.exec blk op = .ok (w', o)) :
+    Solvent w' ∧ w'.st.version = w.st.version := by
   cases op with
   | connect id v cv ord =>
     obtain ⟨e1, e2, e3, e4, e5, e6, _⟩ := exec_plain_frame h (Or.inl ⟨id, v, cv, ord, rfl⟩)
-    exact ⟨solvent_of_same e1 e2 e3 e4 e5 hs, by unfold PostV3; rw [e6]; exact hv⟩
+    exact ⟨solvent_of_same e1 e2 e3 e4 e5 hs, e6⟩
   | allow snd c gg =>
     obtain ⟨e1, e2, e3, e4, e5, e6, _⟩ := exec_plain_frame h (Or.inr (Or.inl ⟨snd, c, gg, rfl⟩))
-    exact ⟨solvent_of_same e1 e2 e3 e4 e5 hs, by unfold PostV3; rw [e6]; exact hv⟩
+    exact ⟨solvent_of_same e1 e2 e3 e4 e5 hs, e6⟩
   | updateAdmin snd a =>
     obtain ⟨e1, e2, e3, e4, e5, e6, _⟩ := exec_plain_frame h (Or.inr (Or.inr ⟨snd, a, rfl⟩))
-    exact ⟨solvent_of_same e1 e2 e3 e4 e5 hs, by unfold PostV3; rw [e6]; exact hv⟩
-  | migrate gg =>
-    obtain ⟨hm, e2, e3, e4, e5, _⟩ := exec_migrate_frame h
-    obtain ⟨e1, e6⟩ := migrate_postV3 hv hm
     exact ⟨solvent_of_same e1 e2 e3 e4 e5 hs, e6⟩
+  | migrate gg => exact absurd rfl (hnm gg)
   | transferNative snd funds msg =>
     obtain ⟨d, amt, w1, s, out, _, hself, hb, hs', rfl, rfl⟩ := exec_transferNative_spec h
     obtain ⟨ch, hinc, rfl, _⟩ := execTransfer_spec hs'
-    refine ⟨?_, hv⟩
+    refine ⟨?_, rfl⟩
     intro x hh hx
     rw [holdings_st, bankSend_holdings hself hb x] at hx
     have hsum := increase_sum hinc x
@@ -254,7 +287,7 @@ theorem exec_solvent {w w' : World} {blk : Block} {op : Op} {o : Outcome}
   | sendCw20 snd token amt msg =>
     obtain ⟨w1, m, s, out, hself, htoken, hb, _, hs', rfl, rfl⟩ := exec_sendCw20_spec h
     obtain ⟨ch, hinc, rfl, _⟩ := execTransfer_spec hs'
-    refine ⟨?_, hv⟩
+    refine ⟨?_, rfl⟩
     intro x hh hx
     rw [holdings_st, tokSend_holdings hself hb x] at hx
     have hsum := increase_sum hinc x
@@ -268,7 +301,7 @@ theorem exec_solvent {w w' : World} {blk : Block} {op : Op} {o : Outcome}
   | hook snd funds sender amt msg =>
     obtain ⟨m, s, out, hnt, _, hs', rfl, rfl⟩ := exec_hook_spec h
     obtain ⟨ch, hinc, rfl, _⟩ := execTransfer_spec hs'
-    refine ⟨?_, hv⟩
+    refine ⟨?_, rfl⟩
     intro x hh hx
     rw [holdings_st] at hx
     have hsum := increase_sum hinc x
@@ -280,31 +313,41 @@ theorem exec_solvent {w w' : World} {blk : Block} {op : Op} {o : Outcome}
     rw [hsum]; simp [hne]; exact hs x hh hx
   | recv p rv tv f =>
     rcases exec_recv_cases h with ⟨_, rfl, _, _⟩ | ⟨s1, sub, hd, _, hc⟩
-    · exact ⟨hs, hv⟩
+    · exact ⟨hs, rfl⟩
     · obtain ⟨amt, d, ch, _, _, hred, rfl, _, hsa, hsd, _, _⟩ := doReceive_spec hd
       rcases hc with ⟨hp, _⟩ | ⟨_, _, ra, ch2, hra, hundo, rfl⟩
       · refine ⟨reduce_payout_solvent hs hred hsd hsa (Or.inl hp), ?_⟩
-        unfold PostV3; rw [(payout_frame hp).1]; exact hv
+        rw [(payout_frame hp).1]
       · simp at hra; subst hra
         have := undoReduce_reduce_eq hred hundo
         subst this
-        exact ⟨solvent_of_same rfl rfl rfl rfl rfl hs, hv⟩
+        exact ⟨solvent_of_same rfl rfl rfl rfl rfl hs, rfl⟩
   | ack chan data ackOk sv tv f =>
     rcases exec_ack_cases h with ⟨_, rfl, _, _⟩ | ⟨_, s1, sub, hf, _, hc⟩
-    · exact ⟨hs, hv⟩
+    · exact ⟨hs, rfl⟩
     · obtain ⟨p, ch, rfl, hred, rfl, _, hsa, hsd, _⟩ := onPacketFailure_spec hf
       rcases hc with ⟨hp, _⟩ | ⟨_, rfl, _⟩
       · refine ⟨reduce_payout_solvent hs hred hsd hsa (Or.inl hp), ?_⟩
-        unfold PostV3; rw [(payout_frame hp).1]; exact hv
-      · exact ⟨reduce_payout_solvent (sub := sub) (tv := sv) (f := f) hs hred hsd hsa (Or.inr rfl), hv⟩
+        rw [(payout_frame hp).1]
+      · exact ⟨reduce_payout_solvent (sub := sub) (tv := sv) (f := f) hs hred hsd hsa (Or.inr rfl), rfl⟩
   | timeout chan data sv tv f =>
     obtain ⟨s1, sub, hf, _, hc⟩ := exec_timeout_cases h
     obtain ⟨p, ch, rfl, hred, rfl, _, hsa, hsd, _⟩ := onPacketFailure_spec hf
     rcases hc with ⟨hp, _⟩ | ⟨_, rfl, _⟩
     · refine ⟨reduce_payout_solvent hs hred hsd hsa (Or.inl hp), ?_⟩
-      unfold PostV3; rw [(payout_frame hp).1]; exact hv
-    · exact ⟨reduce_payout_solvent (sub := sub) (tv := sv) (f := f) hs hred hsd hsa (Or.inr rfl), hv⟩
+      rw [(payout_frame hp).1]
+    · exact ⟨reduce_payout_solvent (sub := sub) (tv := sv) (f := f) hs hred hsd hsa (Or.inr rfl), rfl⟩
 
+
+theorem exec_solvent {w w' : World} {blk : Block} {op : Op} {o : Outcome}
+    (hs : Solvent w) (hv : PostV3 w) (h : w.exec blk op = .ok (w', o)) : Solvent w' ∧ PostV3 w' := by
+  by_cases hm : ∃ g, op = .migrate g
+  · obtain ⟨gg, rfl⟩ := hm
+    obtain ⟨hm, e2, e3, e4, e5, _⟩ := exec_migrate_frame h
+    obtain ⟨e1, e6⟩ := migrate_postV3 hv hm
+    exact ⟨solvent_of_same e1 e2 e3 e4 e5 hs, e6⟩
+  · obtain ⟨h1, h2⟩ := exec_solvent_nomig hs (fun g e => hm ⟨g, e⟩) h
+    exact ⟨h1, by unfold PostV3; rw [h2]; exact hv⟩
 
 theorem step_solvent {w : World} (blk : Block) (op : Op) (hs : Solvent w) (hv : PostV3 w) :
     Solvent (w.step blk op) ∧ PostV3 (w.step blk op) := by
@@ -318,7 +361,9 @@ theorem step_solvent {w : World} (blk : Block) (op : Op) (hs : Solvent w) (hv : 
 arbitrary fields, acknowledgements and timeouts, governance ops and migrations, with payout / refund
 sub-calls failing arbitrarily — for every denomination the contract's actual holdings are at least the
 sum over all channels of the outstanding balance it reports.  (The contract is funded only through
-transfers: a real token calls the hook only from `Send`; the contract never calls itself.) -/
+transfers: a real token calls the hook only from `Send`; the contract never calls itself — the
+environment assumptions E1, E2 are built into `World.exec`; `solvency_explicit_env` has them as explicit
+hypotheses.)  Superseded by `solvency_with_migration`, which drops the version hypothesis. -/
 theorem solvency (w : World) (ops : List (Block × Op)) (hs : Solvent w) (hv : PostV3 w) :
     Solvent (run w ops) ∧ PostV3 (run w ops) := by
   induction ops generalizing w with
@@ -343,6 +388,211 @@ theorem channel_covered {w : World} (hs : Solvent w) (c : String) (d : Denom) (h
   have h1 : outAt w.st.chan (c, d) ≤ sumDenom w.st.chan d := outAt_le_sumDenom w.st.chan (c, d)
   have h2 := hs d h hd
   rw [outstanding_eq]; omega
+
+/-! ## Solvency across migrations from a stored version ≤ 0.13.0 (`v2::update_balances`) -/
+
+/-- After any successful `migrate` the stored cw2 version is newer than 0.13.0: `migrate` bumps an older
+stored version to the current one (`set_contract_version` when `storage_version < version`) and refuses
+a newer one.  So `v2::update_balances` runs at most once in the life of a contract. -/
+theorem migrate_result_postV3 {s s' : State} {gas : Option Nat} {hold : Denom → Option Nat}
+    (h : migrate s gas hold = .ok s') : Version.lt MIGRATE_VERSION_3 s'.version = true := by
+  simp [migrate] at h
+  obtain ⟨_, _, _, s1, h1, s2, h2, s3, h3, rfl⟩ := h
+  split
+  · exact (by decide : Version.lt MIGRATE_VERSION_3 CONTRACT_VERSION = true)
+  · rename_i hlt
+    have e1 : s1.version = s.version := by
+      split at h1
+      · split at h1
+        · simp at h1
+        · simp at h1; subst h1; rfl
+      · simp at h1; subst h1; rfl
+    have e2 : s2.version = s1.version := by
+      split at h2
+      · rcases updateBalances_cases h2 with ⟨_, rfl⟩ | ⟨_, _, _, _, rfl⟩ <;> rfl
+      · simp at h2; subst h2; rfl
+    have e3 : s3.version = s2.version := by
+      split at h3
+      · simp at h3; obtain ⟨cfg, _, rfl⟩ := h3; rfl
+      · simp at h3; subst h3; rfl
+    rw [e3, e2, e1]
+    have hm : 2 ≤ s.version.major := by
+      unfold Version.lt CONTRACT_VERSION at hlt
+      by_cases h2 : s.version.major = 2
+      · omega
+      · simp [h2] at hlt; omega
+    unfold Version.lt MIGRATE_VERSION_3
+    have : (0 : Nat) ≠ s.version.major := by omega
+    simp [this]; omega
+
+/-- **What a legacy start state is assumed to satisfy** (a contract deployed by a release ≤ 0.13.0, about
+to be migrated).  Releases before 0.13.1 increased `outstanding` only when the success acknowledgement
+of a transfer arrived, so such a contract has *booked no more than it holds*; `v2::update_balances` can
+only attribute the surplus to a single channel. -/
+structure LegacyStart (w : World) : Prop where
+  /-- `CHANNEL_INFO` has at most one channel (with more, `v2::update_balances` refuses to migrate). -/
+  one_channel : w.st.channels.length ≤ 1
+  /-- Storage shape: distinct `CHANNEL_STATE` keys, each under a channel of `CHANNEL_INFO`. -/
+  well_formed : WellFormed w.st
+  /-- Under-booked: for every denomination that exists (native, or a real cw20 token) the contract's real
+  holdings are at least the outstanding balance recorded under every channel. -/
+  under_booked : ∀ c d h, w.holdings d = some h → outstanding w.st c d ≤ h
+
+/-- A legacy start state is solvent (it has at most one channel, and that channel is under-booked). -/
+theorem legacy_solvent {w : World} (hl : LegacyStart w) : Solvent w := by
+  intro d h hd
+  cases hc : w.st.channels with
+  | nil => rw [sumDenom_no_channels hl.well_formed hc d]; omega
+  | cons ch rest =>
+    have hrest : rest = [] := by
+      have := hl.one_channel; rw [hc] at this; simp at this; exact this
+    subst hrest
+    have hk : ∀ k ∈ AMap.keys w.st.chan, k.1 = ch := by
+      intro k hk; have := hl.well_formed.2 k hk; rw [hc] at this; simpa using this
+    rw [sumDenom_single hl.well_formed.1 hk d, ← outstanding_eq]
+    exact hl.under_booked ch d h hd
+
+/-- **C11, migrate_reconciles**: a successful `migrate` from a stored version ≤ 0.13.0 of a well-formed
+one-channel contract: for every denomination with an entry on the channel the real holdings exist, were
+at least the booked outstanding balance, and afterwards the sum over channels of the outstanding balance
+*equals* the real holdings (which `migrate` does not move); denominations without an entry have sum 0. -/
+theorem migrate_reconciles {w w' : World} {blk : Block} {g : Option Nat} {o : Outcome} {ch : String}
+    (hwf : WellFormed w.st) (hv : Version.le w.st.version MIGRATE_VERSION_3 = true) (hch : w.st.channels = [ch])
+    (h : w.exec blk (.migrate g) = .ok (w', o)) (d : Denom) :
+    (∀ cs, w.st.chan.get? (ch, d) = some cs → ∃ bal, w.holdings d = some bal ∧ w'.holdings d = some bal ∧
+        cs.outstanding ≤ bal ∧ sumDenom w'.st.chan d = bal ∧ outstanding w'.st ch d = bal) ∧
+    (w.st.chan.get? (ch, d) = none → sumDenom w'.st.chan d = 0) := by
+  obtain ⟨hm, e2, e3, e4, e5, _⟩ := exec_migrate_frame h
+  have hh := holdings_congr e2 e3 e4 e5 d
+  obtain ⟨_, hb⟩ := migrate_books hm
+  rcases hb with ⟨hv', _⟩ | ⟨_, s1, s2, e1, ec, hu, e⟩
+  · rw [hv] at hv'; cases hv'
+  · have hwf1 : WellFormed s1 := wellFormed_of_keys hwf (by rw [e1]) (by intro c hc; rw [ec]; exact hc)
+    obtain ⟨r1, r2⟩ := updateBalances_sum (ch := ch) (by rw [ec, hch]) hwf1 hu d
+    rw [e1] at r1 r2
+    rw [e]
+    refine ⟨?_, r2⟩
+    intro cs hg
+    obtain ⟨bal, hb, hle, hsum, hout, _⟩ := r1 cs hg
+    exact ⟨bal, hb, by rw [hh]; exact hb, hle, hsum, by rw [outstanding_eq, e]; exact hout⟩
+
+/-- **C11, migrate_preserves_solvency**: a successful `migrate` of a solvent, well-formed contract yields a
+solvent contract, whatever the stored version: newer than 0.13.0 the books are untouched; from ≤ 0.13.0
+(v1 → v2 → current or v2 → current) `v2::update_balances` succeeds only with at most one channel and
+sets `outstanding := real holdings` for every entry of it (`migrate_reconciles`), so holdings = Σ
+outstanding for the denominations of the channel.  (That the holdings were ≥ the booked amounts — the
+`under_booked` clause of `LegacyStart` — is implied by the success of the migration: `balance −
+outstanding` is a checked subtraction.) -/
+theorem migrate_preserves_solvency {w w' : World} {blk : Block} {g : Option Nat} {o : Outcome}
+    (hwf : WellFormed w.st) (hs : Solvent w) (h : w.exec blk (.migrate g) = .ok (w', o)) : Solvent w' := by
+  obtain ⟨hm, e2, e3, e4, e5, _⟩ := exec_migrate_frame h
+  obtain ⟨hcs, hb⟩ := migrate_books hm
+  rcases hb with ⟨_, e1⟩ | ⟨hv, s1, s2, e1, ec, hu, e⟩
+  · exact solvent_of_same e1 e2 e3 e4 e5 hs
+  · rcases updateBalances_cases hu with ⟨_, rfl⟩ | ⟨ch, m, hch, _, _⟩
+    · exact solvent_of_same (by rw [e, e1]) e2 e3 e4 e5 hs
+    · intro d hh hd
+      rw [holdings_congr e2 e3 e4 e5 d] at hd
+      obtain ⟨r1, r2⟩ := migrate_reconciles hwf hv (by rw [← ec]; exact hch) h d
+      cases hg : w.st.chan.get? (ch, d) with
+      | none => rw [r2 hg]; omega
+      | some cs =>
+        obtain ⟨bal, hb, _, _, hsum, _⟩ := r1 cs hg
+        rw [hd] at hb; cases hb
+        omega
+
+/-- **C11, migrate_succeeds_from_legacy** (the hypotheses of `migrate_preserves_solvency` are met by every
+legacy state — the migration is live): a legacy start state (`LegacyStart`) stored by this contract at a
+version in `[0.11.1, 0.13.0]` with the storage layout of that version, whose booked denominations all
+exist (else the balance query fails) and whose reconciled values fit `Uint128`, is migrated successfully,
+and the result is solvent. -/
+theorem migrate_succeeds_from_legacy {w : World} (hl : LegacyStart w) (blk : Block) (g : Option Nat)
+    (hname : w.st.versionName = CONTRACT_NAME) (hmin : Version.lt w.st.version MIGRATE_MIN_VERSION = false)
+    (hv3 : Version.le w.st.version MIGRATE_VERSION_3 = true)
+    (hlayout : if Version.le w.st.version MIGRATE_VERSION_2 = true then w.st.v1gov.isSome = true else w.st.v1gov = none)
+    (hexists : ∀ e ∈ w.st.chan, (w.holdings e.1.2).isSome = true)
+    (hfit : ∀ e ∈ w.st.chan, ∀ bal, w.holdings e.1.2 = some bal →
+      bal ≤ U128_MAX ∧ e.2.totalSent + (bal - e.2.outstanding) ≤ U128_MAX) :
+    ∃ w' o, w.exec blk (.migrate g) = .ok (w', o) ∧ Solvent w' := by
+  have hent : ∀ e ∈ w.st.chan, ∃ bal, w.holdings e.1.2 = some bal ∧ e.2.outstanding ≤ bal ∧ bal ≤ U128_MAX ∧
+      e.2.totalSent + (bal - e.2.outstanding) ≤ U128_MAX := by
+    intro e he
+    obtain ⟨bal, hb⟩ := Option.isSome_iff_exists.mp (hexists e he)
+    obtain ⟨h1, h2⟩ := hfit e he bal hb
+    have hu := hl.under_booked e.1.1 e.1.2 bal hb
+    have hg := get?_of_mem_nodup hl.well_formed.1 he
+    simp only [outstanding, hg] at hu
+    exact ⟨bal, hb, hu, h1, h2⟩
+  obtain ⟨s', hm⟩ := migrate_ok_of_legacy (gas := g) hname hmin hv3 hlayout hl.one_channel hent
+  have hx : w.exec blk (.migrate g) = .ok ({ w with st := s' }, {}) := by
+    simp [World.exec, hm, bind, Except.bind, pure, Except.pure]
+  exact ⟨_, _, hx, migrate_preserves_solvency hl.well_formed (legacy_solvent hl) hx⟩
+
+/-- Every transaction keeps a well-formed contract solvent — including `migrate` from any stored version. -/
+theorem exec_solvent_wf {w w' : World} {blk : Block} {op : Op} {o : Outcome}
+    (hs : Solvent w) (hwf : WellFormed w.st) (h : w.exec blk op = .ok (w', o)) : Solvent w' ∧ WellFormed w'.st := by
+  refine ⟨?_, exec_wellFormed hwf h⟩
+  by_cases hm : ∃ g, op = .migrate g
+  · obtain ⟨gg, rfl⟩ := hm
+    exact migrate_preserves_solvency hwf hs h
+  · exact (exec_solvent_nomig hs (fun g e => hm ⟨g, e⟩) h).1
+
+/-- **C11, solvency_with_migration**: from *any* solvent, well-formed state — no assumption on the stored
+version — on every history (transfers, incoming packets with arbitrary fields, acknowledgements and
+timeouts, governance ops, channel handshakes and `migrate` calls *anywhere* in the history, payout /
+refund sub-calls failing arbitrarily), for every denomination the contract's actual holdings are at least
+the sum over all channels of the outstanding balance it reports.
+
+About repeated migrations: `migrate` bumps an older stored version to the current one
+(`migrate_result_postV3`), so the reconciliation of `v2::update_balances` runs in at most one successful
+`migrate` of a history; while the stored version is still ≤ 0.13.0, `migrate` fails (a no-op) as soon as
+two channels exist.  Neither fact is needed here: every successful `migrate` preserves solvency. -/
+theorem solvency_with_migration (w : World) (ops : List (Block × Op)) (hs : Solvent w) (hwf : WellFormed w.st) :
+    Solvent (run w ops) ∧ WellFormed (run w ops).st := by
+  induction ops generalizing w with
+  | nil => exact ⟨hs, hwf⟩
+  | cons op rest ih =>
+    have : Solvent (w.step op.1 op.2) ∧ WellFormed (w.step op.1 op.2).st := by
+      unfold World.step
+      split
+      · rename_i w' o h; exact exec_solvent_wf hs hwf h
+      · exact ⟨hs, hwf⟩
+    exact ih (w.step op.1 op.2) this.1 this.2
+
+/-- **C11, solvency_from_legacy**: solvency on every history that starts from a legacy state
+(`LegacyStart`: stored version arbitrary, in particular ≤ 0.13.0; at most one channel; under-booked) and
+contains `migrate` ops anywhere. -/
+theorem solvency_from_legacy (w : World) (ops : List (Block × Op)) (hl : LegacyStart w) : Solvent (run w ops) :=
+  (solvency_with_migration w ops (legacy_solvent hl) hl.well_formed).1
+
+/-- A second successful `migrate` (the stored version is then newer than 0.13.0) leaves the books alone. -/
+theorem second_migrate_keeps_books {s s' s'' : State} {g g' : Option Nat} {hold hold' : Denom → Option Nat}
+    (h1 : migrate s g hold = .ok s') (h2 : migrate s' g' hold' = .ok s'') : s''.chan = s'.chan :=
+  (migrate_postV3 (migrate_result_postV3 h1) h2).1
+
+/-! ## The same results with the environment assumptions as explicit hypotheses -/
+
+/-- **C11, solvency_explicit_env**: under the *unguarded* transaction semantics (any account, including
+the contract itself and real token contracts, may send any transaction), on every history that satisfies
+the environment assumptions E1–E3 (`EnvAssumptions`: a real token calls the receive hook only from `Send`;
+the contract never calls itself; no native denomination starts with `cw20:`), from any solvent,
+well-formed start state and with `migrate` anywhere: holdings ≥ Σ over channels of outstanding, for
+every denomination. -/
+theorem solvency_explicit_env (w : World) (ops : List (Block × Op))
+    (henv : EnvAssumptions w.self w.tokens ops) (hs : Solvent w) (hwf : WellFormed w.st) :
+    Solvent (runRaw w ops) := by
+  rw [runRaw_eq_run w ops henv]
+  exact (solvency_with_migration w ops hs hwf).1
+
+/-- **C11, channel_ledger / paidOut ≤ escrowed with explicit environment**: the ledger identity and the
+payout bound on the unguarded semantics, for histories satisfying `EnvAssumptions`. -/
+theorem paidOut_le_escrowed_explicit_env (w : World) (ops : List (Block × Op))
+    (henv : EnvAssumptions w.self w.tokens ops) (c : String) (d : Denom) :
+    outstanding (runGRaw (w, Ghost.init w) ops).1.st c d + (runGRaw (w, Ghost.init w) ops).2.paidOut (c, d)
+      + (runGRaw (w, Ghost.init w) ops).2.swallowed (c, d) = (runGRaw (w, Ghost.init w) ops).2.sent (c, d) ∧
+    (runGRaw (w, Ghost.init w) ops).2.paidOut (c, d) ≤ (runGRaw (w, Ghost.init w) ops).2.sent (c, d) := by
+  rw [runGRaw_eq_runG (w, Ghost.init w) ops henv]
+  exact ⟨channel_ledger w ops c d, paidOut_le_escrowed w ops c d⟩
 
 /-- **C11, bad_packets_release_nothing**: a packet whose data does not decode, whose denomination
 lacks the `port/channel/` prefix, names another port or another channel than the packet's source, or
@@ -397,5 +647,126 @@ example : outstanding (run w0 hist).st "channel-1" (.native "uatom") = 30 := by 
 example : sumDenom (run w0 hist).st.chan (.native "uatom") = 45 := by decide
 example : (runG (w0, Ghost.init w0) hist).2.paidOut ("channel-0", .native "uatom") = 45 := by decide
 example : (runG (w0, Ghost.init w0) hist).2.sent ("channel-0", .native "uatom") = 60 := by decide
+
+
+/-! ## The environment assumptions E1 and E2 are needed for solvency -/
+
+/-- **E1 is needed**: under the unguarded semantics, a token contract that exists (`T1`) calling `Receive`
+directly — claiming 50 tokens it never credited — is accepted, and the contract is insolvent afterwards:
+it reports 50 `T1` outstanding and holds none. -/
+theorem solvency_needs_hook_only_from_send :
+    Solvent w0 ∧
+    sumDenom (w0.stepRaw b0 (.hook "T1" [] ⟨true, "mallory"⟩ 50 (some ⟨"channel-0", "bob", none, none⟩))).st.chan (.cw20 "T1") = 50 ∧
+    (w0.stepRaw b0 (.hook "T1" [] ⟨true, "mallory"⟩ 50 (some ⟨"channel-0", "bob", none, none⟩))).holdings (.cw20 "T1") = some 0 ∧
+    (w0.step b0 (.hook "T1" [] ⟨true, "mallory"⟩ 50 (some ⟨"channel-0", "bob", none, none⟩))).st.chan = [] := by
+  refine ⟨by intro d h _; simp [w0, sumDenom], by decide, by decide, by decide⟩
+
+/-- **E2 is needed**: under the unguarded semantics, after alice escrowed 60 uatom, a transfer of 60 uatom
+*sent by the contract itself* moves nothing (self → self) but books another 60: 120 outstanding, 60 held. -/
+theorem solvency_needs_never_calls_itself :
+    sumDenom ((w0.stepRaw b0 (.transferNative "alice" [("uatom", 60)] ⟨"channel-0", "bob", none, none⟩)).stepRaw b0
+      (.transferNative "ics20" [("uatom", 60)] ⟨"channel-0", "bob", none, none⟩)).st.chan (.native "uatom") = 120 ∧
+    ((w0.stepRaw b0 (.transferNative "alice" [("uatom", 60)] ⟨"channel-0", "bob", none, none⟩)).stepRaw b0
+      (.transferNative "ics20" [("uatom", 60)] ⟨"channel-0", "bob", none, none⟩)).holdings (.native "uatom") = some 60 := by
+  decide
+
+/-- The environment assumptions hold of the demo history (nobody but alice sends; no direct hook call;
+`uatom` does not start with `cw20:`), so `solvency_explicit_env` applies to it. -/
+example : EnvAssumptions w0.self w0.tokens hist := by
+  refine ⟨?_, ⟨?_, ?_⟩, ?_⟩
+  · intro blk snd funds sender amt msg hm; simp [hist] at hm
+  · intro blk snd funds msg hm
+    simp [hist] at hm
+    rcases hm with ⟨_, rfl, _⟩ | ⟨_, rfl, _⟩ <;> decide
+  · intro blk snd token amt msg hm; simp [hist] at hm
+  · intro blk snd funds msg hm f hf
+    simp [hist] at hm
+    rcases hm with ⟨_, _, rfl, _⟩ | ⟨_, _, rfl, _⟩ <;> (simp at hf; subst hf; exact nativeOk_of_take (by decide))
+example : runRaw w0 hist = run w0 hist := rfl
+
+/-! ## Non-vacuity: legacy start states and histories with migrations -/
+
+/-- Executable form of the `under_booked` clause (entry by entry). -/
+def underBookedB (w : World) : Bool :=
+  w.st.chan.all (fun e => match w.holdings e.1.2 with | some h => decide (e.2.outstanding ≤ h) | none => true)
+
+theorem under_booked_of_check {w : World} (hc : underBookedB w = true) :
+    ∀ c d h, w.holdings d = some h → outstanding w.st c d ≤ h := by
+  intro c d h hd
+  unfold outstanding
+  cases hg : w.st.chan.get? (c, d) with
+  | none => simp
+  | some cs =>
+    have hm := mem_of_get? hg
+    have := (List.all_eq_true.mp hc) _ hm
+    simp only [hd] at this
+    simpa using this
+
+/-- A contract stored by release 0.13.0 (current storage layout): one channel; it booked 40 uatom and 10 T1
+(acknowledged transfers) but holds 100 uatom and 10 T1 — 60 uatom are still in flight. -/
+def wL : World :=
+  { st := { config := ⟨3600, none⟩, admin := some "gov", allow := [("T1", none)], channels := ["channel-0"],
+            chan := [(("channel-0", .native "uatom"), ⟨40, 40⟩), (("channel-0", .cw20 "T1"), ⟨10, 10⟩)],
+            versionName := CONTRACT_NAME, version := ⟨0, 13, 0, none⟩ },
+    self := "ics20", tokens := ["T1"], faulty := [], bank := [(("ics20", "uatom"), 100), (("alice", "uatom"), 7)],
+    tok := [(("T1", "ics20"), 10)] }
+
+/-- The same books stored by release 0.11.1 (pre-allow-list layout: `gov_contract` inside the config, no
+`ADMIN` item). -/
+def wL1 : World :=
+  { wL with st := { wL.st with v1gov := some "gov", admin := none, allow := [], version := ⟨0, 11, 1, none⟩ } }
+
+example : LegacyStart wL :=
+  ⟨by decide, ⟨by unfold AMap.NodupKeys; decide, by decide⟩, under_booked_of_check (by decide)⟩
+example : LegacyStart wL1 :=
+  ⟨by decide, ⟨by unfold AMap.NodupKeys; decide, by decide⟩, under_booked_of_check (by decide)⟩
+example : ¬ PostV3 wL := by unfold PostV3; decide
+
+/-- all hypotheses of `migrate_succeeds_from_legacy` hold of the 0.11.1 state `wL1` -/
+example : ∃ w' o, wL1.exec b0 (.migrate none) = .ok (w', o) ∧ Solvent w' :=
+  migrate_succeeds_from_legacy
+    ⟨by decide, ⟨by unfold AMap.NodupKeys; decide, by decide⟩, under_booked_of_check (by decide)⟩ b0 none
+    rfl (by decide) (by decide) (by decide) (by decide)
+    (by
+      intro e he bal hb
+      have he' : e = (("channel-0", Denom.native "uatom"), ⟨40, 40⟩) ∨ e = (("channel-0", Denom.cw20 "T1"), ⟨10, 10⟩) := by
+        simpa [wL1, wL] using he
+      rcases he' with rfl | rfl
+      · have : bal = 100 := by
+          have h100 : wL1.holdings (Denom.native "uatom") = some 100 := by decide
+          rw [h100] at hb; exact (Option.some.inj hb).symm
+        subst this; decide
+      · have : bal = 10 := by
+          have h10 : wL1.holdings (Denom.cw20 "T1") = some 10 := by decide
+          rw [h10] at hb; exact (Option.some.inj hb).symm
+        subst this; decide)
+
+/-- v2 → current: the 60 uatom in flight are booked; holdings = Σ outstanding. -/
+example : outstanding (run wL [(b0, .migrate none)]).st "channel-0" (.native "uatom") = 100 ∧
+    sumDenom (run wL [(b0, .migrate none)]).st.chan (.native "uatom") = 100 ∧
+    (run wL [(b0, .migrate none)]).holdings (.native "uatom") = some 100 ∧
+    (run wL [(b0, .migrate none)]).st.version = CONTRACT_VERSION := by decide
+/-- v1 → v2 → current does the same and installs the admin. -/
+example : outstanding (run wL1 [(b0, .migrate (some 7))]).st "channel-0" (.native "uatom") = 100 ∧
+    (run wL1 [(b0, .migrate (some 7))]).st.admin = some "gov" ∧
+    (run wL1 [(b0, .migrate (some 7))]).st.version = CONTRACT_VERSION := by decide
+
+/-- A history with `migrate` in the middle and again at the end: transfer 5 (v2 layout accepts it), migrate
+(books 60 in flight), redeem all 105, migrate again (books unchanged: version is current). -/
+def histL : List (Block × Op) :=
+  [(b0, .transferNative "alice" [("uatom", 5)] ⟨"channel-0", "bob", none, none⟩),
+   (b0, .migrate none),
+   (b0, .recv (pkt "channel-0" "channel-10" (.native "uatom") 105) true true false),
+   (b0, .migrate (some 9))]
+
+example : outstanding (run wL (histL.take 2)).st "channel-0" (.native "uatom") = 105 := by decide
+example : (run wL histL).holdings (.native "uatom") = some 0 ∧
+    sumDenom (run wL histL).st.chan (.native "uatom") = 0 ∧ (run wL histL).bankBal "alice" "uatom" = 107 := by decide
+
+/-- With a second channel connected before the migration, `migrate` from 0.13.0 fails (a no-op): the
+stored version stays 0.13.0 and the state stays (trivially) solvent. -/
+example : (run wL [(b0, .connect "channel-1" ICS20_VERSION none false), (b0, .migrate none)]).st.version = ⟨0, 13, 0, none⟩ ∧
+    ((wL.step b0 (.connect "channel-1" ICS20_VERSION none false)).exec b0 (.migrate none)).tag = "multiplechannels" := by
+  decide
 
 end CwPlus.Props.C11
